@@ -206,6 +206,7 @@ DISTURB = [
     {"op": "restart", "maxit": 1, "cfl": 0.15},
     {"op": "solve", "f": "a", "save": "early", "maxit": 2, "dtlocal": True},   # a directive given to one call only
     {"op": "other-solver"},                                                    # other integrator objects use the same discretisation in between
+    {"op": "restart", "maxit": 1, "dtlocal": True},                                   # a directive given to a restart only
     {"op": "solve", "f": "a", "save": "early+late", "maxit": 3, "bare_stop": True},  # stop = {"maxit": 3} only: the end time is left to the default (last save time)
 ]
 PROBE_SAVES = ["none", "early", "early2", "late", "early+late", "all", "start+late"]
@@ -361,7 +362,7 @@ def explore(iname, sysname, ctor_mon, depth, res=None):
     # deep traces (not exhaustive at that depth, a supplement to the tree above): three fixed orders of ALL disturbing letters, cut after 5, 9 and
     # 12 operations, then a probe - a defect that needs a fourth or a tenth call on the same object to show
     order = list(range(len(DISTURB)))
-    paths = [order, order[::-1], [0, 6, 2, 7, 8, 9, 3, 6, 10, 7, 11, 6, 12]]
+    paths = [order, order[::-1], [0, 6, 2, 7, 8, 9, 3, 6, 10, 7, 11, 6, 12, 13]]
     for path in paths:
         if DISTURB[path[0]]["op"] == "restart":
             path = [0] + path
